@@ -309,7 +309,13 @@ def ev_b(e, env):
         return ev_b(e[1], env) or ev_b(e[2], env)
     if t == "maceq":
         return _mac_text(env.data, e[1]) == e[2]
-    a, b = ev_i(e[2], env), ev_i(e[3], env)
+    if e[1] in ("<", "<="):
+        # p2sh compiles `a < b` as `b > a`: the right operand is evaluated first, which a
+        # side-effecting operand (tick) makes observable
+        b = ev_i(e[3], env)
+        a = ev_i(e[2], env)
+    else:
+        a, b = ev_i(e[2], env), ev_i(e[3], env)
     return {"==": a == b, "!=": a != b, "<": a < b, "<=": a <= b, ">": a > b, ">=": a >= b}[e[1]]
 
 
